@@ -1,8 +1,111 @@
 import RisorModel.Util
-/-! Line-protocol front end of the C10 model (stub until the model exists). -/
+import RisorModel.C10.Model
+/-!
+Line-protocol front end of the C10 model (requests after the leading `C10` field).
+
+  chanops <cap> <op,op,…>             → <impl obs,…> TAB <spec obs,…> TAB <atMostOneIterator> TAB <buflen>:<closed>:<rx>
+       op  := s:t:i:k | r:t | c:t | n:t | e:t | p:t | h:s:r:i:k:(0|1)
+       obs := B | so | se | co | ce | v:i:k | nil | nv:i:k | end | ent:key:i:k | entnone
+  hist <counts,…> <recv;recv;…>       → valid|invalid TAB pattern|nopattern TAB dups:lost:alien
+       recv := i:k,i:k,… | -
+  spawn <vars,…> <shared,…> <op,op,…> → <obs,…>
+       op  := a:i:v | g:i:v | sp:(e|f):i.i.i | k:sl:i:v | run:t | w:t        (i.i.i = argument variables, `-` if none)
+       obs := B | u | sp:t:slice | ran:R | w:R        R := (r|e) "." v.v.v
+-/
 namespace Risor.C10
+open Risor.Util
+
+def natOf (s : String) : Option Nat := s.toNat?
+
+def intOf (s : String) : Option Int := s.toInt?
+
+def listOf (sep : String) (s : String) : List String :=
+  if s = "-" || s = "" then [] else s.splitOn sep
+
+def parseOp (s : String) : Option Op :=
+  match s.splitOn ":" with
+  | ["s", t, i, k] => do pure (.send (← natOf t) (← natOf i, ← natOf k))
+  | ["r", t] => do pure (.recv (← natOf t))
+  | ["c", t] => do pure (.close (← natOf t))
+  | ["n", t] => do pure (.next (← natOf t))
+  | ["e", t] => do pure (.entry (← natOf t))
+  | ["p", t] => do pure (.peek (← natOf t))
+  | ["h", s, r, i, k, it] => do pure (.handoff (← natOf s) (← natOf r) (← natOf i, ← natOf k) (it == "1"))
+  | _ => none
+
+def showMsg (m : Msg) : String := toString m.1 ++ ":" ++ toString m.2
+
+def showObs : Option Obs → String
+  | none => "B"
+  | some .sendOk => "so"
+  | some .sendErr => "se"
+  | some .closeOk => "co"
+  | some .closeErr => "ce"
+  | some (.val v) => "v:" ++ showMsg v
+  | some .nil => "nil"
+  | some (.nextOk v) => "nv:" ++ showMsg v
+  | some .nextEnd => "end"
+  | some (.ent k v) => "ent:" ++ toString k ++ ":" ++ showMsg v
+  | some .entNone => "entnone"
+
+def parseMsg (s : String) : Option Msg :=
+  match s.splitOn ":" with
+  | [i, k] => do pure (← natOf i, ← natOf k)
+  | _ => none
+
+def parseBody : String → Option Body
+  | "e" => some .echo
+  | "f" => some .fail
+  | _ => none
+
+def parseTOp (s : String) : Option TOp :=
+  match s.splitOn ":" with
+  | ["a", i, v] => do pure (.assign (← natOf i) (← intOf v))
+  | ["g", i, v] => do pure (.setShared (← natOf i) (← intOf v))
+  | ["sp", b, args] => do pure (.spawn (← (listOf "." args).mapM natOf) (← parseBody b))
+  | ["k", sl, i, v] => do pure (.poke (← natOf sl) (← natOf i) (← intOf v))
+  | ["run", t] => do pure (.runT (← natOf t))
+  | ["w", t] => do pure (.wait (← natOf t))
+  | _ => none
+
+def showInts (vs : List Int) : String :=
+  if vs.isEmpty then "-" else ".".intercalate (vs.map toString)
+
+def showOutcome : Outcome → String
+  | .ret vs => "r." ++ showInts vs
+  | .err vs => "e." ++ showInts vs
+
+def showTObs : Option TObs → String
+  | none => "B"
+  | some .unit => "u"
+  | some (.spawned t sl) => "sp:" ++ toString t ++ ":" ++ toString sl
+  | some (.ran r) => "ran:" ++ showOutcome r
+  | some (.waited r) => "w:" ++ showOutcome r
+
+def joinC (xs : List String) : String := if xs.isEmpty then "-" else ",".intercalate xs
 
 def handle : List String → String
-  | _ => "error\tnot-implemented"
+  | ["chanops", cap, ops] =>
+    match natOf cap, (listOf "," ops).mapM parseOp with
+    | some cap, some ops =>
+      let (impl, cf) := trace step (init cap) ops
+      let (spec, _) := trace specStep (init cap) ops
+      joinC (impl.map showObs) ++ "\t" ++ joinC (spec.map showObs) ++ "\t" ++ toString (atMostOneIterator ops)
+        ++ "\t" ++ toString cf.buf.length ++ ":" ++ toString cf.closed ++ ":" ++ toString cf.rx
+    | _, _ => "error\tbad-request"
+  | ["hist", counts, recv] =>
+    match (listOf "," counts).mapM natOf, ((if recv = "" then [] else recv.splitOn ";").mapM fun r => (listOf "," r).mapM parseMsg) with
+    | some counts, some recv =>
+      let d := dupLoss counts recv
+      (if validHistory counts recv then "valid" else "invalid") ++ "\t"
+        ++ (if defectPattern counts recv then "pattern" else "nopattern") ++ "\t"
+        ++ toString d.dups ++ ":" ++ toString d.lost ++ ":" ++ toString d.alien
+    | _, _ => "error\tbad-request"
+  | ["spawn", vars, shared, ops] =>
+    match (listOf "," vars).mapM intOf, (listOf "," shared).mapM intOf, (listOf "," ops).mapM parseTOp with
+    | some vars, some shared, some ops =>
+      joinC ((ttrace tstep { vars := vars, shared := shared } ops).map showTObs)
+    | _, _, _ => "error\tbad-request"
+  | _ => "error\tunknown-request"
 
 end Risor.C10
